@@ -11,7 +11,7 @@ F = ndmodel.load_private('openfilter/filter_runtime/frame.py', 'frame_c10', np_m
 Frame = F.Frame
 
 VIEWS = ['rw', 'ro', 'rgb', 'bgr', 'gray', 'rw_rgb', 'rw_bgr', 'ro_rgb', 'ro_bgr']
-OTHER = ['copy', 'image', 'jpg', 'from_frame_data', 'from_frame_fmt', 'from_jpg', 'pickle', 'write']
+OTHER = ['copy', 'image', 'jpg', 'from_frame_data', 'from_frame_fmt', 'from_jpg', 'from_jpg_decoded', 'pickle', 'write']
 FMT_OF = {'rgb': 'RGB', 'bgr': 'BGR', 'gray': 'GRAY', 'rw_rgb': 'RGB', 'rw_bgr': 'BGR', 'ro_rgb': 'RGB', 'ro_bgr': 'BGR'}
 
 
@@ -45,6 +45,12 @@ def mk_scenario(nops, ops=None, planted=None, sym_size=True):
             n = 3 if len(arr.shape) == 3 else 1
             vals = [arr.pix(si, sj, c) for c in range(n)]
             return vals
+        def cur_px(f):
+            """the pixels frame f shows now, WITHOUT triggering its lazy decode (a jpg-only frame shows what its jpg decodes to)"""
+            if f._Frame__image is False:
+                j = f._Frame__jpg; n = 3 if len(j.shape) == 3 else 1
+                return [j.fn(si, sj, c) for c in range(n)]
+            return px(f._Frame__image)
         def same(a, b, what, sig):
             if a is None or b is None or len(a) != len(b): e.fail(sig, f'{what}: channel count {a} vs {b}', {'kind': sig})
             for x, y in zip(a, b):
@@ -69,33 +75,37 @@ def mk_scenario(nops, ops=None, planted=None, sym_size=True):
             if op in VIEWS:
                 want_fmt = FMT_OF.get(op, tf)
                 before_rw = t.is_rw
-                src_now = px(t.image)
+                src_now = cur_px(t)
+                was_jpg_only = t._Frame__image is False
                 v = getattr(t, op)
                 e.observed(op)
                 if planted == 'oracle' and v is not t: e.fail('planted', 'twin', {'kind': 'planted'})
                 if v.format != want_fmt: e.fail('format', f'{op}: format {v.format} instead of {want_fmt}', {'kind': 'format', 'op': op})
-                vi = v.image
-                if op.startswith('rw') and not vi.flags.writeable: e.fail('writability', f'{op} returned a read-only image', {'kind': 'writability', 'op': op})
-                if op.startswith('ro') and vi.flags.writeable: e.fail('writability', f'{op} returned a writable image', {'kind': 'writability', 'op': op})
-                if op in ('rgb', 'bgr', 'gray') and bool(vi.flags.writeable) != bool(before_rw):
+                if op.startswith('rw') and not v.is_rw: e.fail('writability', f'{op} returned a read-only image', {'kind': 'writability', 'op': op})
+                if op.startswith('ro') and not v.is_ro: e.fail('writability', f'{op} returned a writable image', {'kind': 'writability', 'op': op})
+                if op in ('rgb', 'bgr', 'gray') and bool(v.is_rw) != bool(before_rw):
                     e.fail('writability', f'{op} changed writability', {'kind': 'writability', 'op': op})
-                same(px(vi), conv(src_now, tf, want_fmt), f'{op}: view does not show the pixels its source has at that moment (source {tf} {"rw" if before_rw else "ro"})', 'stale')
+                same(cur_px(v), conv(src_now, tf, want_fmt), f'{op}: view does not show the pixels its source has at that moment (source {tf} {"rw" if before_rw else "ro"}{" jpg-only" if was_jpg_only else ""})', 'stale')
                 must_be_new = (op == 'rw' and not before_rw) or (op == 'ro' and before_rw) or \
                               (op.startswith('rw_') and not (before_rw and tf == want_fmt)) or (op.startswith('ro_') and not (not before_rw and tf == want_fmt))
-                if must_be_new:
-                    if v is t or vi.buf is t.image.buf:
+                vi = v._Frame__image
+                if must_be_new and isinstance(vi, NDArray):
+                    ti = t._Frame__image
+                    if v is t or (isinstance(ti, NDArray) and vi.buf is ti.buf):
                         e.fail('alias', f'{op} promised a new image but shares memory with its source', {'kind': 'alias', 'op': op})
                     for o in live:
                         oi = o._Frame__image
                         if isinstance(oi, NDArray) and oi.buf is vi.buf and oi.flags.writeable and o is not v:
                             e.fail('alias', f'{op} result shares a writable buffer with another live frame', {'kind': 'alias', 'op': op})
+                elif must_be_new and v is t:
+                    e.fail('alias', f'{op} promised a new frame but returned its source', {'kind': 'alias', 'op': op})
                 if v is not t and all(v is not o for o in live): live.append(v)
             elif op == 'copy':
-                src_now = px(t.image) if t.has_image else None
+                src_now = cur_px(t) if t.has_image else None
                 c = t.copy(); e.observed('copy')
                 if t.has_image:
-                    same(px(c.image), src_now, 'copy: pixels differ', 'stale')
-                    if t.is_rw and c.image.buf is t.image.buf: e.fail('alias', 'copy() of a writable image shares memory', {'kind': 'alias', 'op': 'copy'})
+                    same(cur_px(c), src_now, 'copy: pixels differ', 'stale')
+                    if t.is_rw and c._Frame__image.buf is t._Frame__image.buf: e.fail('alias', 'copy() of a writable image shares memory', {'kind': 'alias', 'op': 'copy'})
                 if c.data is t.data or c.data != t.data: e.fail('copy-data', 'copy() data not a shallow copy', {'kind': 'copy-data'})
                 live.append(c)
             elif op == 'image':
@@ -105,17 +115,18 @@ def mk_scenario(nops, ops=None, planted=None, sym_size=True):
             elif op == 'jpg':
                 j = t.jpg; e.observed('jpg')
                 n = 3 if len(t.shape) == 3 else 1
-                same([j.fn(si, sj, c) for c in range(n)], px(t.image), 'jpg: encoding does not decode to the current pixels', 'jpg-stale')
+                same([j.fn(si, sj, c) for c in range(n)], cur_px(t), 'jpg: encoding does not decode to the current pixels', 'jpg-stale')
             elif op == 'from_frame_data':
                 live.append(Frame(t, {'new': step}))
             elif op == 'from_frame_fmt':
                 if tf == 'GRAY': continue
                 live.append(Frame(t, None, 'RGB' if tf == 'BGR' else 'BGR'))      # relabel: shares the image by documentation
-            elif op == 'from_jpg':
+            elif op in ('from_jpg', 'from_jpg_decoded'):
                 j = t.jpg
-                nf = Frame.from_jpg(j, {'j': step}, t.height, t.width, tf); e.observed('from_jpg')
-                same(px(nf.image), px(t.image), 'from_jpg: decoded pixels differ from the encoded source', 'stale')
-                if nf.image.flags.writeable: e.fail('writability', 'jpg-backed image is writable', {'kind': 'writability', 'op': 'from_jpg'})
+                nf = Frame.from_jpg(j, {'j': step}, t.height, t.width, tf); e.observed(op)
+                if op == 'from_jpg_decoded':          # (plain from_jpg leaves the frame jpg-only: later operations meet the undecoded state)
+                    same(px(nf.image), cur_px(t), 'from_jpg: decoded pixels differ from the encoded source', 'stale')
+                    if nf.image.flags.writeable: e.fail('writability', 'jpg-backed image is writable', {'kind': 'writability', 'op': 'from_jpg'})
                 live.append(nf)
             elif op == 'pickle':
                 fn_, args = t.__reduce__()
@@ -123,7 +134,7 @@ def mk_scenario(nops, ops=None, planted=None, sym_size=True):
                 if isinstance(image, NDArray): image = NDArray(Buffer(image.buf.fn), image.shape, True)      # unpickled arrays own fresh writable memory
                 nf = Frame.unreduce(image, dict(data), jpg, shapef, writeable); e.observed('pickle')
                 if t.has_image:
-                    same(px(nf.image), px(t.image), 'pickle: pixels differ after round trip', 'stale')
+                    same(cur_px(nf), cur_px(t), 'pickle: pixels differ after round trip', 'stale')
                     if nf.is_rw != t.is_rw: e.fail('writability', 'pickle round trip changed writability', {'kind': 'writability', 'op': 'pickle'})
                 live.append(nf)
             elif op == 'write':
@@ -158,7 +169,7 @@ def harnesses(tier):
     assume = ['cv2.cvtColor / copy / imencode / imdecode follow their documented contracts (validated on concrete images in the self test)',
               'JPEG is modelled lossless (tolerance is outside the claim)']
     hs = [Harness('c10.op_sequences', mk_scenario(3), twin=mk_scenario(1, planted='oracle'),
-                  bounds={'operations': 3, 'op kinds': '17 (9 views, copy, image, jpg, Frame(frame,data), Frame(frame,fmt), from_jpg, pickle, write pixel)', 'start': 'GRAY/BGR/RGB x rw/ro',
+                  bounds={'operations': 3, 'op kinds': '18 (9 views, copy, image, jpg, Frame(frame,data), Frame(frame,fmt), from_jpg undecoded / decoded, pickle, write pixel)', 'start': 'GRAY/BGR/RGB x rw/ro',
                           'image size': 'symbolic h,w in [1,4096]', 'pixel index / written values': 'symbolic'},
                   functions=fn, stubs=stubs, assumptions=assume, real_replay=real_replay, budget_s=900)]
     if not q:
